@@ -386,6 +386,10 @@ def expand_enum(op: dict) -> list[dict]:
     c = control(pid)
     if not c.ok:
         return []
+    if len(c.eqns) > int(op.get("max_eqns", 10**9)):
+        # deterministic size cut for the quick tier (every crash point re-converts the program)
+        c.reason = "too_large_for_tier"
+        return []
     subs: list[dict] = []
     if op.get("opt", True):
         for strict in (False, True):
@@ -436,6 +440,12 @@ def run(plan: dict) -> dict:
             subs = expand_enum(op)
             c = control(op["pid"])
             stats["programs"] += 1
+            if c.reason == "too_large_for_tier":
+                stats["programs_skipped_too_large_for_tier"] += 1
+                log.add(op="enum", pid=op["pid"], skipped=c.reason, n_eqn=len(c.eqns))
+                programs_done.append({"pid": op["pid"], "control": c.reason, "eqns": len(c.eqns)})
+                _CONTROLS.pop(op["pid"], None)
+                continue
             if not c.ok:
                 stats["programs_without_control"] += 1
                 log.add(op="enum", pid=op["pid"], skipped=c.reason)
@@ -530,7 +540,7 @@ def main(tier: str) -> int:
     n_shards = max(1, min(len(pids), co.JOBS * (6 if tier == "thorough" else 2)))
     shards: list[list[dict]] = [[] for _ in range(n_shards)]
     for i, pid in enumerate(pids):
-        shards[i % n_shards].append({"op": "enum", "pid": pid, "eqn_cap": eqn_cap, "fn_cap": fn_cap, "seed": seed})
+        shards[i % n_shards].append({"op": "enum", "pid": pid, "eqn_cap": eqn_cap, "fn_cap": fn_cap, "seed": seed, "max_eqns": 10**9 if tier == "thorough" else 250})
     for i, cid in enumerate(catalogue_ids()):
         shards[i % n_shards].append({"op": "catalogue", "pid": cid})
     plans = [{"property": PROP, "hashseed": 0, "ops": ops} for ops in shards if ops]
@@ -561,6 +571,7 @@ def main(tier: str) -> int:
             "exhaustive": tier == "thorough" and all(r is not None for r in results),
             "programs": stats.get("programs", 0),
             "programs_with_control": stats.get("programs_with_control", 0),
+            "programs_skipped_too_large_for_tier": stats.get("programs_skipped_too_large_for_tier", 0),
             "programs_with_functions": stats.get("programs_with_functions", 0),
             "programs_with_nested_bodies": stats.get("programs_with_nested_bodies", 0),
             "registry_size": len(registry),
